@@ -323,6 +323,11 @@ def run_design(ctx):
     onsets = np.array([4 * tr + i * gap for i in range(len(order))])
     n_vols = int(np.ceil((onsets[-1] + dur + 40) / tr)) + 6
     events = pd.DataFrame({'onset': onsets, 'duration': dur, 'trial_type': order})
+    if rng.integers(2):
+        # an events table that was assembled in another order and then sorted by onset: its row labels (the pandas index)
+        # are a permutation of 0..n-1 -- rows are rows, whatever their labels
+        shuffled = events.iloc[rng.permutation(len(events))].reset_index(drop=True)
+        events = shuffled.sort_values('onset')
     n_conf = int(rng.integers(0, 4))
     conf = pd.DataFrame({f'cf{i}': rng.standard_normal(n_vols) for i in range(n_conf)}) if n_conf else None
     if conf is not None and rng.integers(2):
